@@ -16,6 +16,9 @@ LEVEL_TEXT = ("static: decides, for every allocation site and every CFG path inc
               "on paths through failing allocations, and that all allocation goes through the replaceable allocator. Does not decide 'channel remains "
               "usable' as a behavioural whole; objects held only in channel/server/connection fields are out of scope of the leak rule."
               " Also decides (REQUEUE) that a request taken off its connection and timer is re-sent, parked or completed on every path and that every parked request is re-sent, (COUNTED) that counted string arrays are covered by their count at every exit, (ALLOCOUT/REGISTERED) see DESIGN §11.2.")
+# fifth-round additions
+TECHNIQUE += "; " + "path search from a successful hash-table insert to a release of the inserted object with the table's remove as barrier (R-C14-UNDO); deviance rule over all allocation-to-member stores (R-C14-ALLOCCHK)"
+LEVEL_TEXT += " " + '(UNDO) an object released on a failure path was first taken out of the hash table it had been put into; (ALLOCCHK) the result of an allocation stored into a member of an object is tested in the storing function (77 sites).'
 LEVEL_NOTE = ("trusts clang CFG + extractor; ownership transfer through struct fields is inferred from which fields the library ever releases; five frozen "
               "exemptions (take-back idioms, correlated count/pointer) are listed with reasons in tool/py/ownrules.py")
 DESIGN_REF = "DESIGN.md §6/C14"
